@@ -71,10 +71,12 @@ type world struct {
 	// pod-template labels per ReplicaSet: the old ones carry their own "version" label (as real templates of
 	// different revisions usually differ in more than the image)
 	tmplLabels [3]map[string]string
+	// staleAvail >= 0: the Deployment's status (availableReplicas / readyReplicas) carries this out-of-date value
+	staleAvail int
 }
 
 func newWorld() *world {
-	w := &world{labels: map[string]string{"app": dName}}
+	w := &world{labels: map[string]string{"app": dName}, staleAvail: -1}
 	w.tmplLabels = [3]map[string]string{
 		{"app": dName, "version": "old1"},
 		{"app": dName, "version": "old2"},
@@ -173,6 +175,9 @@ func (w *world) buildObjects(s *state) (*appsv1.Deployment, []*appsv1.ReplicaSet
 		}
 	}
 	d.Status = appsv1.DeploymentStatus{ObservedGeneration: 1, Replicas: total, UpdatedReplicas: updated, ReadyReplicas: avail, AvailableReplicas: avail}
+	if w.staleAvail >= 0 {
+		d.Status.ReadyReplicas, d.Status.AvailableReplicas = int32(w.staleAvail), int32(w.staleAvail)
+	}
 	return d, rss
 }
 
